@@ -81,7 +81,7 @@ CLAIMED = {
         "C15_idempotent (expanding again changes nothing), C15_sound / C15_primitive_is_reduction (only unfolding and beta steps), C15_confluent + C15_normal_form_unique + C15_equals_normal_form "
         "(Church-Rosser: the result IS the normal form, however computed), C15_complete / C15_none_iff_no_normal_form, C15_standard_agrees (an independent applicative-order evaluator agrees), "
         "C15_fuel_monotone. The model is tied to primitive() on all generated expressions, including definitions that duplicate a parameter (these crashed the implementation until defect D8 was repaired by "
-        "copy-on-substitution). Partial: type preservation and 'expands without type error in a language that validates' are decided by the oracle. Typed (Props/C15Typed.lean, 26): a simple type system with subsumption over the declared order; substitution lemma, subject reduction for beta and for unfolding typed definitions, C15t_primitive_preserves, minimal types go down along the expansion (monomorphic instances).",
+        "copy-on-substitution). Partial: type preservation and 'expands without type error in a language that validates' are decided by the oracle. Typed (Props/C15Typed.lean, 26): a simple type system with subsumption over the declared order; substitution lemma, subject reduction for beta and for unfolding typed definitions, C15t_primitive_preserves, minimal types go down along the expansion (monomorphic instances). Termination (Props/C15Terminates.lean, 14): strong normalisation of beta reduction on every typed term (Tait's method over the arrow skeleton, subsumption with Top and Bottom included; the self-application lambda x. x x is typable at Bottom -> T, omega is proved untypable), hence C15n_primitive_terminates / C15n_primitive_total: for typed definitions and a typed expression the expansion terminates for some fuel and every larger one, its result is normal, unique and has every type of the expression - no longer conditional on the fuelled normaliser returning.",
         technique="Lean 4 proof (substitution lemmas, parallel reduction / Church-Rosser, standardisation) + model/implementation correspondence check + independent normaliser oracle",
         ref="6/C15"),
  "C16": dict(text="On the model (definitions are immutable data; the inference store is the only thing threaded between uses): C16_instantiate_fresh / C16_instantiate_twice_disjoint, C16_unify_frame / "
